@@ -58,7 +58,8 @@ IMPLICIT = ['1', '-17', '0x1F', '0o17', '017', '1_000', '3.14', '-.5', '1e3', '.
 ESCAPES = ['\\0', '\\a', '\\b', '\\t', '\\n', '\\v', '\\f', '\\r', '\\e', '\\ ', '\\"', '\\/', '\\\\', '\\N', '\\_', '\\L',
            '\\P', '\\x41', '\\xe9', '\\u263A', '\\u00e9', '\\U0001F600', '\\U00000041', '\\U0010FFFF']
 TAGS = ['!!str', '!!int', '!!float', '!!map', '!!seq', '!!set', '!!omap', '!!binary', '!local', '!<tag:example.com,2000:x>',
-        '!', '!!null', '!!bool', '!a%20b', '!!timestamp', '!!pairs']
+        '!', '!!null', '!!bool', '!a%20b', '!!timestamp', '!!pairs', '!<tag:yaml.org,2002:s%74r>', '!l%C3%A9on',
+        '!<tag:example.com,2000:%E2%82%AC%2Fx>', '!!s%74r']
 
 
 class DocGen:
@@ -256,7 +257,7 @@ class DocGen:
             lines.append('%YAML 1.' + r.choice('1112'))
             explicit = True
         if r.random() < 0.15:
-            lines.append('%TAG !e! tag:example.com,2000:app/')
+            lines.append(r.choice(['%TAG !e! tag:example.com,2000:app/', '%TAG !e! tag:ex%61mple.com,2000:app%2F']))
             self.handle = True
             explicit = True
         if explicit:
